@@ -117,7 +117,7 @@ def main(tier, seed):
                 what = {"fault": mode, "at_call": k, "call": [tgt, call]}
                 if r["out"][0] != "raise":
                     why = f"the I/O error did not reach the caller: the operation returned {r['out']}"
-                elif r["out"][1] not in ("OSError", "IOError"):
+                elif r["out"][1] not in ("OSError", "IOError", "BlockingIOError", "InterruptedError", "TimeoutError", "PermissionError"):       # (Python names an OSError by its number)
                     why = f"the caller got {r['out'][1]} instead of the I/O error"
                 else:
                     outcomes["raised"] += 1
@@ -265,7 +265,7 @@ def main(tier, seed):
         "checker_cmd": "make -C /verif/coq Prop_C13.vo IO.vo Run.vo; Print Assumptions per theorem; allowed states evaluated with vm_compute",
         "trusted_base": TRUSTED_BASE_COMMON + [
             "hand model IO.v (I/O scripts; an error path consists of steps that do not write rows to, truncate or replace the primary) and DB.v, tied by correspondence",
-            "run-time proxies harness/ioproxy.py raising OSError(EIO) before the call takes effect, and for flush/fsync/close also after it",
+            "run-time proxies harness/ioproxy.py raising OSError (its number varies with the boundary: EIO, ENOSPC, EAGAIN, EINTR, ETIMEDOUT, ESTALE, EDQUOT, EACCES) before the call takes effect, and for flush/fsync/close also after it",
             "Print Assumptions: " + json.dumps(b["assumptions"])],
         "theorems": b["theorems"], "forbidden_tokens_found": b["forbidden"],
         "evaluations": n_runs, "histories": len(cases),
